@@ -177,6 +177,27 @@ fn plans(prop: &str, tier: &str) -> Vec<Plan> {
                 depth: if q { 2 } else { 3 },
             });
             out.push(Plan { name: "c09-bursts", cfgs, depth: if q { 3 } else { 4 } });
+            // Insert / Set / Remove / Truncate at every index of a 66- or 131-item vector: the index equal to
+            // the limit, one below and one above it, and the chunk boundaries, for limits inside and beyond one chunk
+            out.push(Plan {
+                name: "c09-tree-every-index",
+                cfgs: every_index(tree_cfgs(
+                    "C09",
+                    &[
+                        StageKind::Head(Lim::Static(3)),
+                        StageKind::Head(Lim::Static(65)),
+                        StageKind::Tail(Lim::Static(3)),
+                        StageKind::Tail(Lim::Static(65)),
+                        StageKind::Skip(Lim::Static(2)),
+                        StageKind::Skip(Lim::Static(64)),
+                        StageKind::Head(Lim::DynInit(64, LimSrc::Queue)),
+                        StageKind::Tail(Lim::DynInit(64, LimSrc::Obs)),
+                        StageKind::Skip(Lim::DynInit(70, LimSrc::Queue)),
+                    ],
+                    1,
+                )),
+                depth: if q { 1 } else { 2 },
+            });
         }
         "C10" => {
             let cfgs = single_stage_cfgs("C10", &[StageKind::Filter, StageKind::FilterMap], 2, 3, &[16, 1], &both, &fl);
